@@ -23,6 +23,8 @@ type Mode struct {
 	Early    bool
 	Byz      bool
 	ByzAll   bool // Byzantine deviations are broadcasts to all honest participants (one deviation) instead of single deliveries
+	Wire     bool // deliveries take the two-stage validation route (partial, then full) instead of one-shot
+	Forge    bool // probe the validators with forged Byzantine messages in every expanded state (forge.go)
 	Liveness bool
 	Policy   Policy
 	Horizon  int
@@ -65,6 +67,9 @@ func (p Policy) String() string {
 	return "sync"
 }
 
+// maxForgeries bounds the accepted forgeries (action F) per execution.
+var maxForgeries = 2
+
 type node struct {
 	prefix []string
 	budget int
@@ -85,6 +90,8 @@ type stats struct {
 	diverged    atomic.Int64
 	expanded    atomic.Int64
 	byzAccepted atomic.Int64
+	probes      atomic.Int64
+	forged      atomic.Int64
 }
 
 type Explorer struct {
@@ -246,6 +253,28 @@ func (e *Explorer) runOnce(n node) bool {
 			e.st.pruned.Add(1)
 			ended = "pruned"
 			break
+		}
+		nForged := 0
+		for _, l := range s.trace {
+			if l[0] == 'F' {
+				nForged++
+			}
+		}
+		if mode.Forge && s.w.sc.Byz >= 0 && nForged < maxForgeries {
+			// forgeries cost no deviation budget (they exist only where a validator is unsound) but are bounded
+			// per execution
+			p0 := s.probes
+			if fs := s.probeForgeries(); len(fs) > 0 {
+				e.st.forged.Add(int64(len(fs)))
+				base := append([]string(nil), s.trace...)
+				for i := len(fs) - 1; i >= 0; i-- {
+					p := make([]string, len(base)+1)
+					copy(p, base)
+					p[len(base)] = fs[i].String()
+					e.push(node{prefix: p, budget: budget})
+				}
+			}
+			e.st.probes.Add(int64(s.probes - p0))
 		}
 		if budget > 0 {
 			devs := s.deviations()
